@@ -326,7 +326,7 @@ Qed.
 (* soundness of the boolean checkers evaluated on the implementation's output *)
 Lemma holds_pgen_sound k :
   holds_pgen k = true ->
-  geno_domb false (pc_g k) = true -> chunk_dom (pc_cw k) -> chunk_dom (pc_cr k) ->
+  geno_domb (pc_strict_half k) (pc_g k) = true -> chunk_dom (pc_cw k) -> chunk_dom (pc_cr k) ->
   exists g', pc_back k = Ok g' /\ rt_rel (pc_g k) g'.
 Proof.
   unfold holds_pgen. intros H Hd Hw Hr.
